@@ -36,4 +36,12 @@ theorem inv_kExit (c : Cfg) (hc : c.Good) (x x' : Inst) (h : stepI c x .kExit = 
     IInv x' := by
   inv_event
 
+theorem inv_tDropVal (c : Cfg) (hc : c.Good) (x x' : Inst) (h : stepI c x .tDropVal = some x') (hinv : IInv x) :
+    IInv x' := by
+  inv_event
+
+theorem inv_tDropPanic (c : Cfg) (hc : c.Good) (x x' : Inst) (h : stepI c x .tDropPanic = some x') (hinv : IInv x) :
+    IInv x' := by
+  inv_event
+
 end TinyVerif.Thread
